@@ -51,7 +51,7 @@ fn run_replay(r: &Replay) -> Option<Failure> {
 fn check_e1(check: &mut Check, flavours: Vec<adapt::Flavour>) {
   let ctx = check.ctx.clone();
   let w = e1::weights_for(&ctx.property);
-  let cases = ctx.tier.pick(6_000u64, 300_000u64);
+  let cases = ctx.tier.pick(40_000u64, 2_000_000u64);
   let max_ops = ctx.tier.pick(60usize, 120usize);
   let out = vcore::drive(&ctx, &check.findings, 1, cases, move || e1::scenario_strategy(flavours.clone(), w, max_ops), |s| e1::execute(s));
   check.absorb("E1", out);
@@ -105,6 +105,20 @@ fn main() {
           std::process::exit(2)
         }
       };
+      if std::env::var("VERIF_SURVEY").is_ok() {
+        let mut by_sig: std::collections::BTreeMap<String, (u64, String)> = Default::default();
+        for (k, v) in &check.stats.excluded {
+          if let Some(rest) = k.strip_prefix("SURVEY ") {
+            let (sig, msg) = rest.split_once(" :: ").unwrap_or((rest, ""));
+            let e = by_sig.entry(sig.to_string()).or_insert((0, msg.to_string()));
+            e.0 += v;
+          }
+        }
+        for (k, (n, m)) in by_sig {
+          println!("{n:6}  {k}\n          e.g. {m}");
+        }
+        std::process::exit(0);
+      }
       check.finish(EvidenceMeta {
         level: "exploration",
         rule,
